@@ -270,6 +270,8 @@ def focused(tier):
                            [[0.5, 1.0], [4.0, 2.0], [4.0, 3.0]], route=matrix([[0.0, 0.5, 0.5], [0.0, 0.0, 0.0], [0.0, 0.0, 0.0]]))}
     for tr in ("MatrixBlocking", "NaiveBlocking") if tier == "quick" else TRACKERS:
         tn = tr if isinstance(tr, str) else "%s%s" % (tr[0], list(tr[1].values())[0])
+        if tn.startswith("NodeClassMatrix["):
+            continue          # (a class ordering naming a class this one-class network does not have)
         out.append(cfg("two blocking destinations / %s" % tn, fam, copy.deepcopy(three), copy.deepcopy(three_cl), K=3, T=10.0,
                        D=5 if tier == "quick" else 8, tracker=tr, features=["tracker", "blocking", "two destinations"]))
     # the other entry points stamp the history too
